@@ -50,6 +50,12 @@ class Perm(enum.Flag):
     X = 4
 
 
+class Mask(enum.Flag):
+    """a bit (2) exists only inside the multi-bit member RW: 5 and 6 are inside the mask but no combination of members"""
+    RW = 3
+    X = 4
+
+
 @dataclasses.dataclass
 class Two:
     a: int
@@ -102,6 +108,7 @@ def _row(cols):
 EXTRA = [
     Datum("1e17", lambda: 1e17), Datum("-1e17", lambda: -1e17), Datum("1e12", lambda: 1e12), Datum("2**63", lambda: 2**63),
     Datum("-2**63", lambda: -2**63), Datum("253402300800", lambda: 253402300800), Datum("-62135596801", lambda: -62135596801),
+    Datum("5", lambda: 5), Datum("6", lambda: 6), Datum("7", lambda: 7), Datum("8", lambda: 8),
     Datum("'2020-13-45'", lambda: "2020-13-45"), Datum("'2020-01-02T03:04:05.678901'", lambda: "2020-01-02T03:04:05.678901"),
     Datum("['R', ['W']]", lambda: ["R", ["W"]]), Datum("['R', None]", lambda: ["R", None]), Datum("'R'", lambda: "R"),
     Datum("{'a': 1}", lambda: {"a": 1}), Datum("{'a': 1, 'b': 2}", lambda: {"a": 1, "b": 2}),
@@ -125,6 +132,8 @@ VARIANTS = [
     ("enum_by_value(int)", Num, lambda: [enum_by_value(Num, tp=int)]),
     ("enum_by_exact_value", Num, lambda: [enum_by_exact_value(Num)]),
     ("flag_by_exact_value", Perm, lambda: [flag_by_exact_value(Perm)]),
+    ("flag_by_exact_value(Mask)", Mask, lambda: [flag_by_exact_value(Mask)]),
+    ("default flag (Mask)", Mask, lambda: []),
     ("flag_by_member_names", Perm, lambda: [flag_by_member_names(Perm)]),
     ("flag_by_member_names(strictest)", Perm, lambda: [flag_by_member_names(Perm, allow_single_value=False, allow_duplicates=False,
                                                                              allow_compound=False)]),
